@@ -77,6 +77,11 @@ def shrink(c):
 
 
 ADVERSARIAL = [
+    # loop bodies of nothing but a declaration inside a function (hoisted: the instrumented branch is `pass`, there is no pristine branch);
+    # found by the thorough tier only (3 of 1384 generated programs): Erase.post did not know the shape (false alarm, corrected)
+    {"src": "def f1():\n    try:\n        raise SystemExit(3)\n    except:\n        for j in range(2):\n            global c\n        else:\n            pass\n    w7 = 1\n"
+            "    while w7 > 0:\n        w7 -= 1\n        global c\n        c = (b + c)\n    while False:\n        global d\n    return c\nu = f1()\n",
+     "events": ["after_stmt", "before_stmt", "after_for_loop_iter", "after_while_loop_iter"], "guards": True},
     {"src": "def f1(p=0):\n    t(1, 1)\n    if p == 99:\n        zz = 0\n    bx.v = bx.v + 1\n    return zz\ntry:\n    f1()\nexcept NameError as e:\n    u = [type(e).__name__, bx.v]\n",
      "events": ["load_name", "after_stmt"], "guards": True},
     {"src": "def f1(p=0):\n    bx.items.append(t(1, 9))\n    raise NameError(\"nn\")\ndef f2():\n    t(2, 2)\n    return f1()\ntry:\n    f2()\nexcept NameError as e:\n    u = len(bx.items)\n",
